@@ -13,7 +13,7 @@ from concurrent.futures import ThreadPoolExecutor
 from ..coqeval import term, Raw, Nat, NN, Some, eval_checks
 from ..util import run_cli, workdir
 
-RULE = ("diploid blocks: every pair of equally long 0/1 strings up to length 7 (quick) / 9 (thorough) as first "
+RULE = ("diploid blocks: every pair of equally long 0/1 strings up to length 7 (quick) / 8 (thorough, plus 40000 random pairs of length 9) as first "
         "haplotypes of two heterozygous phasings, run through compare_block, compute_switch_flips, BedCreator.records and "
         "compare_pair (longest-block agreement) and through the three relabellings (haplotype order swapped in either "
         "phasing, phasings exchanged); seeded random longer pairs (length 10-60: few switches/flips, complements, random) "
@@ -1294,14 +1294,25 @@ def report_l2(ctx, l2, prefix):
 def run(ctx):
     rng = ctx.rng
     # --- (a1) diploid direct
-    ex = list(gen_dip_exhaustive(ctx.n(7, 9)))
+    maxlen = ctx.n(7, 8)
+    ex = list(gen_dip_exhaustive(maxlen))
     rnd = list(gen_dip_random(rng, ctx.n(1500, 20000)))
-    failing, l2, raws = check_diploid(ctx, CORPUS_DIP + ex + rnd, "all", shard=ctx.n(1500, 4000))
+    if not ctx.quick:      # length 9: a large seeded sample instead of all 262144 pairs (memory/time budget)
+        rnd += [("".join(rng.choice("01") for _ in range(9)), "".join(rng.choice("01") for _ in range(9))) for _ in range(40000)]
+    allpairs = list(dict.fromkeys(CORPUS_DIP + ex + rnd))
+    l2, nf1, first = {}, 0, None
+    for off in range(0, len(allpairs), 30000):        # chunked: bounded memory of the harness and of the coqc shards
+        failing, l2c_, raws = check_diploid(ctx, allpairs[off:off + 30000], "all", shard=1500)
+        nf1 += len(failing["L1_agreement"])
+        for k_, v_ in l2c_.items():
+            l2.setdefault(k_, []).extend(v_)
+        if first is None:
+            first = raws[:1] + raws[-2:]
     ctx.exhaustive = True
     ctx.extra["diploid_exhaustive_pairs"] = len(ex)
-    ctx.extra["diploid_exhaustive_maxlen"] = ctx.n(7, 9)
-    ctx.extra["diploid_F1_inputs_in_stream"] = len(failing["L1_agreement"])
-    for r in raws[:1] + raws[len(CORPUS_DIP) + len(ex):len(CORPUS_DIP) + len(ex) + 2]:
+    ctx.extra["diploid_exhaustive_maxlen"] = maxlen
+    ctx.extra["diploid_F1_inputs_in_stream"] = nf1
+    for r in first or []:
         ctx.sample({"diploid": r})
     report_l2(ctx, l2, "direct.")
     g = check_diploid_general(ctx, rng, ctx.n(1500, 20000))
